@@ -462,9 +462,15 @@ def gen_C01(rng):
     for i, t in enumerate(sc['transfers']):
         if rng.random() < 0.6:
             sc['faults'] += gen_rewinds(rng, i, t, sc['config'])
+    if rng.random() < 0.15:
+        # one failing step: on the shipped code the transfer then fails and the
+        # statement says nothing, but a change that swallows or "retries" the
+        # error reports success for an object that is not the source
+        i = rng.randrange(len(sc['transfers']))
+        sc['faults'] += gen_fatal_fault(rng, i, sc['transfers'][i], sc['config'])
     paths = [i for i, t in enumerate(sc['transfers'])
              if t['type'] == 'upload' and t.get('src') == 'path']
-    if paths and rng.random() < 0.12:
+    if paths and not sc['faults'] and rng.random() < 0.2:
         # the application rewrites a file it has uploaded and uploads it again
         # through the same manager: the object is what the file holds NOW
         i = rng.choice(paths)
@@ -496,8 +502,12 @@ def gen_C02(rng):
     if rng.random() < 0.6:
         for i, t in enumerate(sc['transfers']):
             sc['faults'] += gen_stream_retries(rng, i, t, sc['config'])
+    if rng.random() < 0.1:
+        i = rng.randrange(len(sc['transfers']))
+        sc['faults'] += gen_fatal_fault(rng, i, sc['transfers'][i], sc['config'])
+        _dedupe_stream(sc)
     dls = [i for i, t in enumerate(sc['transfers']) if t['type'] == 'download']
-    if dls and not sc.get('driver') and rng.random() < 0.08:
+    if dls and not sc.get('driver') and not sc['faults'] and rng.random() < 0.12:
         # the object is replaced (other size) and downloaded again through the
         # same manager: the destination holds what the object is NOW
         i = rng.choice(dls)
@@ -524,6 +534,21 @@ def gen_C03(rng):
             if t['type'] == 'download':
                 sc['faults'] += gen_stream_retries(rng, k, t, sc['config'], 1)
     _dedupe_stream(sc)
+    if rng.random() < 0.2:
+        # ... and the manager is told to cancel everything while the failed
+        # transfer still has tasks in flight: the failure recorded first stays
+        n = len(sc['transfers'])
+        est = est_steps(sc['transfers'], sc['config'])
+        step = rng.randint(0, int(est * 1.1))
+        if rng.random() < 0.6:
+            kw = {'cancel': True}
+            if rng.random() < 0.7:
+                kw['cancel_msg'] = rng.choice(['', 'stop now'])
+            sc['driver'] = [['submit', i] for i in range(n)] + \
+                [['wait_step', step], ['shutdown', kw, True]] + [['result', i] for i in range(n)]
+        else:
+            sc['driver'] = [['submit', i] for i in range(n)] + \
+                [['wait_step', step], ['with_raise', rng.choice(['exc', 'kbi']), 'x', True]]
     return sc
 
 
@@ -583,7 +608,7 @@ def add_cancel_script(rng, sc, how=None, allow_ctrlc=True):
         sc['driver'] = [['submit', i] for i in range(n)] + \
             [['wait_step', step], act] + results
     elif how == 'with':
-        kind = rng.choice(['exc', 'exc', 'kbi'])
+        kind = rng.choice(['exc', 'exc', 'kbi', 'cancelerr'])
         act = ['with_raise', kind, msg, atomic]
         if not atomic and rng.random() < 0.5:
             act.append(_mass_hold(rng, n))
@@ -927,16 +952,21 @@ def gen_C13(rng):
         # many bodies smaller than the limiter's batching threshold, one request
         # at a time: every one of them is charged only when it is closed, and
         # together they must still respect the limit
-        sc = base(rng, [('upload', 3), ('download', 1)], nmax=3, short_reads=True, maxsize=15)
+        mix = rng.choice([[('upload', 3), ('download', 1)], [('download', 3), ('upload', 1)]])
+        sc = base(rng, mix, nmax=3, short_reads=True, maxsize=15)
         cfg = sc['config']
         thr = 16
         cfg['multipart_threshold'] = 64
         cfg['multipart_chunksize'] = 64
         cfg['max_request_concurrency'] = 1
         cfg['max_bandwidth'] = rng.choice([8, 16])
+        # one read of a download asks for io_chunksize bytes: at or above the
+        # threshold it is charged before it is made (as with the defaults, where
+        # both are 256 KiB)
+        cfg['io_chunksize'] = rng.choice([16, 16, 32])
         n = rng.randint(8, 12)
         while len(sc['transfers']) < n:
-            sc['transfers'].append(gen_transfer(rng, cfg, [('upload', 4), ('download', 1)]))
+            sc['transfers'].append(gen_transfer(rng, cfg, mix))
         for t in sc['transfers']:
             t['size'] = rng.randint(thr // 2, thr - 1)
             for sub in t['subs']:
@@ -1159,11 +1189,41 @@ def gen_C18(rng):
     return sc
 
 
+def gen_C17(rng):
+    """End-to-end companion of the coordinator engine: everything on the
+    caller's thread (NonThreadedExecutor), a stream upload in several parts, a
+    request that fails and - later, inside the same submission - a Ctrl-C or a
+    second failure while the source is read.  The failure recorded first is
+    the one result() raises."""
+    sc = base(rng, [('upload', 1)], nmax=1, maxsize=30)
+    cfg = sc['config']
+    t = sc['transfers'][0]
+    t['src'] = rng.choice(['nonseekable', 'seekable'])
+    t['offset'] = 0
+    t.pop('short_seekable', None)
+    t['short_src'] = False
+    cfg['multipart_chunksize'] = rng.randint(2, 5)
+    cfg['multipart_threshold'] = rng.randint(2, 6)
+    t['size'] = cfg['multipart_threshold'] + cfg['multipart_chunksize'] * rng.randint(3, 5)
+    for sub in t['subs']:
+        if sub.get('provide_size') is not None:
+            sub['provide_size'] = t['size']
+    sc['knobs']['serial'] = True
+    sc['knobs']['line_preempt'] = False
+    sc['knobs']['adjuster'] = {'min_size': 1, 'max_size': 1 << 40, 'max_parts': 10000}
+    sc['faults'] = [
+        {'site': 's3', 'op': 'upload_part', 'key': 'k0', 'part': rng.randint(1, 2),
+         'when': rng.choice(['before', 'after']), 'exc': rng.choice(['client', 'value', 'eio'])},
+        {'site': 'src', 't': 0, 'nth': rng.randint(2, 6),
+         'exc': rng.choice(['kbi', 'kbi', 'oserror'])}]
+    return sc
+
+
 GENERATORS = {
     'C01': gen_C01, 'C02': gen_C02, 'C03': gen_C03, 'C04': gen_C04,
     'C05': gen_C05, 'C06': gen_C06, 'C07': gen_C07, 'C08': gen_C08,
     'C09': gen_C09, 'C10': gen_C10, 'C11': gen_C11, 'C18': gen_C18,
-    'C13': gen_C13, 'C16': gen_C16,
+    'C13': gen_C13, 'C16': gen_C16, 'C17': gen_C17,
 }
 
 
